@@ -1,4 +1,152 @@
-From VF.C08 Require Import Model.
-Theorem C08_placeholder : run init [] = Some init.
-Proof. exact eq_refl. Qed.
-Print Assumptions C08_placeholder.
+(* C08 - property theorems only.  Each is closed by [exact] of a lemma of the
+   proof files and followed by Print Assumptions.
+
+   Vocabulary (Model.v): [run init ops] executes a history of public StateDB
+   calls on the faithful model (None = a Go panic); [inv_all s] is the
+   executable statement of the property on a state: statistics = recomputation
+   from the existing validator records (counters modulo 2^64), every total =
+   own + delegations with strictly sorted delegation lists, every stake =
+   token / stake unit, index = addresses of the existing validators, delegator
+   accounts and validators agree (lists readable, both directions, balance =
+   sum).  [safe ops] (Proofs.v / ProofsSim.hpre) says that no operation of the
+   history enters one of the four remaining finding classes (F2 RemoveValidator
+   of a cached validator, F3 GetValidatorsForUpdate while the in-memory index
+   differs from the persisted one, F5 delegation from an address without
+   account, F6 a validator that IsInvalid() deletes although it holds tokens)
+   or breaks the callers' discipline (stake = token/unit on creation, updates
+   that move the total by the change of the self part, no delegation withdrawn
+   below zero, valid roles and revision ids).  The ghost number t of wf/R/hpre
+   (number of oldest validator-journal entries excluded from the journal
+   invariant) is 0 along every run from [init]; it is vestigial since the
+   repository fix fe4c1ff gave UpdateDelegation a private slice. *)
+From VF.C08 Require Import Model Abstract ProofsA ProofsSim Proofs Witnesses Bridge.
+Local Open Scope Z_scope.
+
+(* the full-strength statement: over every history whatsoever *)
+Definition C08_full : Prop := forall ops s, run init ops = Some s -> inv_all s = true.
+
+(* 1. it is false for the code as it is: four independent classes of histories break it *)
+Theorem C08_full_refuted : ~ C08_full.
+Proof. exact full_statement_refuted. Qed.
+Print Assumptions C08_full_refuted.
+
+(* 2. outside those classes it holds: for every history (any length, any nesting
+   of snapshots and reverts, any number of commits, reloads and copies) *)
+Theorem C08_inv_holds_outside :
+  forall ops s, safe ops = true -> run init ops = Some s -> inv_all s = true.
+Proof. exact inv_holds_outside. Qed.
+Print Assumptions C08_inv_holds_outside.
+
+(* ... and at every intermediate point of such a history *)
+Theorem C08_inv_holds_at_every_point :
+  forall l1 l2 s, safe (l1 ++ l2) = true -> run init l1 = Some s -> inv_all s = true.
+Proof. exact inv_holds_at_every_point. Qed.
+Print Assumptions C08_inv_holds_at_every_point.
+
+(* 3. the two halves of the argument, stated separately.
+   (a) the value-level semantics (no cache, no shared slices; Abstract.v) keeps
+       the invariant J = property + "every valid revision restores a state
+       satisfying the property" under EVERY operation meeting the discipline,
+       reverts across delegation updates included *)
+Theorem C08_value_level_invariant :
+  J ainit /\ forall s o, J s -> a_pre s o = true -> J (a_step s o).
+Proof. exact (conj J_init J_step). Qed.
+Print Assumptions C08_value_level_invariant.
+
+(* (b) outside the finding classes one step of the faithful model is one step of
+       the value-level semantics (R: abstraction relation, wf: cache coherence,
+       tombstones, slice separation, journal chain) *)
+Theorem C08_faithful_refines_value_level :
+  forall h t x o h', wf h t -> R h t x -> J x -> hpre h t o = true -> step h o = Some h' ->
+    wf h' (taint_next h t o h') /\ R h' (taint_next h t o h') (a_step x o) /\ J (a_step x o).
+Proof. exact sim_step. Qed.
+Print Assumptions C08_faithful_refines_value_level.
+
+(* 4. the finding classes are real: each witness is a history whose last
+   operation is the first one outside [safe] and whose final state violates
+   the property (replayed against the implementation by the harness corpus) *)
+Theorem C08_refuted_remove_validator : refutes w_f2.
+Proof. exact refuted_f2. Qed.
+Print Assumptions C08_refuted_remove_validator.
+Theorem C08_refuted_remove_validator_double_decrement :
+  exists s, run init w_f2b = Some s /\ inv_stat s = false /\ on_count (k0 (stat_ s)) = 0 /\ length (live s) = 1%nat.
+Proof. exact f2_double_decrement. Qed.
+Print Assumptions C08_refuted_remove_validator_double_decrement.
+Theorem C08_refuted_list_reloads_index : refutes w_f3.
+Proof. exact refuted_f3. Qed.
+Print Assumptions C08_refuted_list_reloads_index.
+Theorem C08_refuted_delegate_from_missing_account : refutes w_f5.
+Proof. exact refuted_f5. Qed.
+Print Assumptions C08_refuted_delegate_from_missing_account.
+Theorem C08_refuted_isinvalid_truncation : refutes w_f6.
+Proof. exact refuted_f6. Qed.
+Print Assumptions C08_refuted_isinvalid_truncation.
+
+(* 5. Validator.Less is a strict total order on validators with distinct
+   addresses, so the sorted validator list and the voter indexes derived from
+   it are well defined *)
+Theorem C08_validators_sort_total :
+  (forall a, vless a a = false) /\
+  (forall a b c, vless a b = true -> vless b c = true -> vless a c = true) /\
+  (forall a b, vless a b = true -> vless b a = false) /\
+  (forall a b, v_addr a <> v_addr b -> vless a b = true \/ vless b a = true).
+Proof. exact (conj vless_irrefl (conj vless_trans (conj vless_asym vless_total))). Qed.
+Print Assumptions C08_validators_sort_total.
+
+(* 6. bridge: the constants the model hard-codes are those of the working tree *)
+Theorem C08_repo_params_match : params_match = true.
+Proof. exact repo_params_match. Qed.
+Print Assumptions C08_repo_params_match.
+
+(* non-vacuity: a concrete history outside all finding classes that creates
+   three validators, delegates, withdraws a delegation completely, reverts a
+   deposit, a creation and (twice) delegation updates made since the snapshot,
+   deletes an emptied validator at IntermediateRoot, commits and reloads twice
+   and copies with uncommitted delegation lists; it is safe, does not panic,
+   ends with two validators holding delegations and satisfies the property *)
+Definition U : Z := stake_unit.
+Definition ex_hist : list op :=
+  [OFund 1; OFund 2; OFund 3;
+   OCreate 100 1 1 (10 * U) 10; OCreate 200 3 0 (5 * U + 7) 5; OCreate 300 2 1 (2 * U) 2;
+   ODelegate 1 100 (3 * U); ODelegate 2 100 (U + 1); ODelegate 3 200 (4 * U);
+   OSnapshot;
+   OUpdate 300 (mkU 2 0 0 0 0 0 0 0 9);
+   OUpdate 200 (mkU 3 1 (9 * U + 7) 9 (5 * U + 7) 5 0 0 0);
+   OSnapshot;
+   OUpdate 100 (mkU 1 1 (15 * U + 1) 15 (11 * U) 11 5 5 3);
+   ORevert 1;
+   OFinalise;
+   ODelegate 2 100 (-(U + 1));
+   ORoot;
+   OList;
+   OSnapshot; OCreate 300 1 1 U 1; ORevert 2;
+   OCommitReload;
+   ODelegate 1 200 (U - 1);
+   OCommitReload;
+   OSnapshot; ODelegate 2 200 (2 * U); ODelegate 3 200 (- U); ODelegate 1 100 (- (3 * U)); ORevert 0;
+   ODelegate 2 100 (5 * U);
+   OCopy;
+   ODelegate 2 100 U;
+   OSnapshot; ODelegate 2 100 (- (6 * U)); ORevert 0;
+   ODelegate 3 200 (- U);
+   ORoot].
+Example C08_nonvacuous_safe_history :
+  safe ex_hist = true /\
+  exists s, run init ex_hist = Some s /\ inv_all s = true /\
+    map (fun y => (v_addr (fst y), length (snd y))) (live s) = [(100, 2%nat); (200, 2%nat)] /\
+    on_count (k0 (stat_ s)) = 2.
+Proof.
+  split; [vm_compute; reflexivity|].
+  destruct (run init ex_hist) as [s|] eqn:E; [|vm_compute in E; discriminate].
+  exists s. split; [reflexivity|].
+  assert (Hs : Some s = run init ex_hist) by (symmetry; exact E). vm_compute in Hs. inversion Hs; subst s.
+  vm_compute. auto.
+Qed.
+Print Assumptions C08_nonvacuous_safe_history.
+
+(* non-vacuity of the value-level invariant: its hypotheses hold along ex_hist *)
+Example C08_nonvacuous_discipline :
+  (fix go (x : astate) (l : list op) : bool :=
+     match l with [] => true | o :: r => a_pre x o && go (a_step x o) r end) ainit ex_hist = true.
+Proof. vm_compute. reflexivity. Qed.
+Print Assumptions C08_nonvacuous_discipline.
